@@ -270,11 +270,18 @@ type TokensV struct {
 	Sep  AV
 	N    IntV // number of tokens in the context
 	Site ssa.Instruction
+	// Fn == "bufio.ScanLines": the lines a bufio.Scanner (object Scanner) yields for In, collected
+	// by the recognised loop; NonEmpty: only the non-empty ones
+	NonEmpty bool
+	Scanner  *Obj
 }
 
 func (t *TokensV) String() string {
 	if t.Fn == "strings.Fields" {
 		return "Fields(" + t.In.String() + ")"
+	}
+	if t.Fn == "bufio.ScanLines" {
+		return "Lines(" + t.In.String() + ")"
 	}
 	return "Split(" + t.In.String() + "," + t.Sep.String() + ")"
 }
@@ -454,6 +461,7 @@ type ResV struct {
 	A     AV     // URL (response, body), path (file), underlying writer (bufio)
 	Flags AV     // open flags (file); nil for os.Create
 	O     *Obj   // bufio: cell holding "has unflushed data"; bytes.Buffer: cell holding what was written ("", "rendered", "other")
+	Temp  bool   // os.File: created by os.CreateTemp (new and empty; it becomes the output by os.Rename)
 	Site  ssa.Instruction
 }
 
@@ -464,11 +472,17 @@ func (r ResV) String() string {
 	return fmt.Sprintf("%s(%v)", r.Kind, r.A)
 }
 
+// TempNameV is the name of the temporary file created by the os.CreateTemp call at Site.
+type TempNameV struct{ Site ssa.Instruction }
+
+func (t TempNameV) String() string { return "name of the temporary file" }
+
 // RenderedV is the content of a bytes.Buffer into which exactly one template Execute has
 // written (and nothing else): Buf is the buffer's cell, Exec the Execute call.
 type RenderedV struct {
-	Buf  *Obj
-	Exec ssa.Instruction
+	Buf       *Obj
+	Exec      ssa.Instruction
+	Formatted bool // passed through go/format.Source
 }
 
 func (r RenderedV) String() string { return "rendered template" }
